@@ -43,7 +43,7 @@ func init() {
 }
 
 func runC17(b *Batch) {
-	n := b.Pick(500, 20000) / b.NBatches
+	n := b.Pick(1600, 40000) / b.NBatches
 	// cases sleep; run several concurrently inside the child
 	var wg sync.WaitGroup
 	sem := make(chan struct{}, 8)
